@@ -175,9 +175,20 @@ fn run_bit(path: &str, h: u8, n: u32, data: &[u8], second: &[u8]) -> Option<(Str
                 x => x,
             };
             let two = path == "xb2";
-            let d = doc_with_font(h, data, if two { Some(second) } else { None }, 80, path != "xb1");
+            let mut d = doc_with_font(h, data, if two { Some(second) } else { None }, 80, path != "xb1");
+            // variants decided by the glyph data: a custom palette next to the font, and a SAUCE record naming a stock
+            // font while the embedded glyphs are not the stock ones (the file's own font is the one that must come back)
+            let variant = data.iter().take(8).fold(0u8, |a, b| a.wrapping_mul(31).wrapping_add(*b)) % 4;
+            if variant & 1 == 1 && path != "icy" {
+                d.palette = Some((0..16).map(|i| (data[(3 * i) % data.len()] & 0xFC, data[(3 * i + 1) % data.len()] & 0xFC, data[(3 * i + 2) % data.len()] & 0xFC)).collect());
+            }
+            let with_sauce = variant & 2 == 2;
+            if with_sauce {
+                d.fonts[0].name = "IBM VGA".into();
+                d.sauce = Some(doc::SauceD::default());
+            }
             let buf = doc::build(&d);
-            let bytes = match buf.to_bytes(ext, &save_opts(false, true)) {
+            let bytes = match buf.to_bytes(ext, &save_opts(with_sauce, true)) {
                 Ok(b) => b,
                 Err(e) => {
                     // ADF / IDF only take 8x16 fonts: refusing another height is not a round-trip failure
@@ -574,7 +585,7 @@ impl Prop for C17 {
         "C17"
     }
     fn rule(&self) -> &'static str {
-        "bitmap fonts (8 x 1..=32, 256 glyphs, 512 for PSF2; all-zero / all-one / random glyph bytes, some starting with a PSF magic number; every built-in page 0..=42 and every SAUCE font) are sent through PSF2 bytes, raw data (create_8, from_basic, from_bytes), the DCS CTerm:Font sequence fed to the real ANSI parser, and embedding in XBin (1 and 2 fonts), ADF, IDF and IcyDraw files written and loaded by the engine; size, glyph count and every glyph must be bit-identical. TheDraw fonts (outline/block/colour, 0..=94 glyphs up to 30x12, names 0..=12, spacing 0..=40, bundles of 1..=34) are written with as_tdf_bytes / create_font_bundle, checked by an independent TDF reader in the harness (writer side) and re-read with from_tdf_bytes (reader side, glyph table via hook H5). distinct_nontrivial = distinct (path, height, glyph count, data class) / (bundle size, glyph layout) fingerprints"
+        "bitmap fonts (8 x 1..=32, 256 glyphs, 512 for PSF2; all-zero / all-one / random glyph bytes, some starting with a PSF magic number; every built-in page 0..=42 and every SAUCE font) are sent through PSF2 bytes, raw data (create_8, from_basic, from_bytes), the DCS CTerm:Font sequence fed to the real ANSI parser, and embedding in XBin (1 and 2 fonts), ADF, IDF and IcyDraw files written and loaded by the engine (with and without a custom palette in the same file, with and without a SAUCE record that names the stock font 'IBM VGA' while the embedded glyphs differ); size, glyph count and every glyph must be bit-identical. TheDraw fonts (outline/block/colour, 0..=94 glyphs up to 30x12, names 0..=12, spacing 0..=40, bundles of 1..=34) are written with as_tdf_bytes / create_font_bundle, checked by an independent TDF reader in the harness (writer side) and re-read with from_tdf_bytes (reader side, glyph table via hook H5). distinct_nontrivial = distinct (path, height, glyph count, data class) / (bundle size, glyph layout) fingerprints"
     }
     fn meta(&self, ctx: &Ctx) -> Value {
         json!({"floor_evaluations": 1000, "floor_distinct": ctx.tier.pick(800u64, 5000u64),
